@@ -52,8 +52,8 @@ func planC20(s *Sim, spec cs.RunSpec) {
 	c := &c20{sim: s, inflight: map[string]int{}}
 	s.drawFaultMix("pull-error")
 
-	images := []string{"quay.io/pkg/one:v1", "quay.io/pkg/two:v1", "mirror.io/pkg/one:v1"}
-	ni := 1 + s.Scn.Intn(3, "images")
+	images := []string{"quay.io/pkg/one:v1", "quay.io/pkg/one:v2", "quay.io/pkg/two:v1", "mirror.io/pkg/one:v1"}
+	ni := 1 + s.Scn.Intn(4, "images")
 	images = images[:ni]
 	var prefix []imageprefix.Override
 	if s.Scn.Chance(1, 3, "prefix-override") {
